@@ -4,6 +4,9 @@ import (
 	"encoding/json"
 	"fmt"
 	"os"
+	"os/exec"
+	"strings"
+	"sync"
 	"time"
 )
 
@@ -117,5 +120,74 @@ func init() {
 		v := res.Violations[0]
 		fmt.Println(v.Sig(), "\n ", v.Msg)
 		fmt.Println(reportViolation(prop, res.Trace, v, sp))
+	}
+}
+
+func init() {
+	// selftest-determinism: every seed is executed in several fresh processes under different
+	// GOMAXPROCS; event-log digest, trace hash and violation list must be identical.
+	extraCmds["selftest-determinism"] = func(args []string) {
+		n := int(envInt("VERIF_SELFTEST_SEEDS", 40))
+		base := uint64(envInt("VERIF_SEED", 1))
+		self, _ := os.Executable()
+		type spec struct {
+			prof, mode string
+		}
+		specs := []spec{{"mixed", ""}, {"did", "c01"}, {"staking", "c03"}, {"timeout", ""}, {"faults", "c18"}, {"authz", ""}}
+		type key struct {
+			i int
+			p int
+		}
+		results := map[key]string{}
+		var mu sync.Mutex
+		var wg sync.WaitGroup
+		sem := make(chan struct{}, 16)
+		bad := 0
+		for i := 0; i < n; i++ {
+			for pi, procs := range []string{"1", "4", "16"} {
+				wg.Add(1)
+				go func(i, pi int, procs string) {
+					defer wg.Done()
+					sem <- struct{}{}
+					defer func() { <-sem }()
+					sp := specs[i%len(specs)]
+					rs := RunSpec{Index: i, Seed: runSeed(base, i), Profile: sp.prof, Prop: "ALL", Mode: sp.mode, Fuel: 5_000_000}
+					b, _ := json.Marshal(rs)
+					cmd := exec.Command(self, "worker")
+					cmd.Env = append(os.Environ(), "GOMAXPROCS="+procs)
+					cmd.Stdin = strings.NewReader(string(b) + "\n")
+					out, err := cmd.Output()
+					var r indexedResult
+					if err != nil || json.Unmarshal(out, &r) != nil {
+						mu.Lock()
+						bad++
+						fmt.Println("worker failed for seed", rs.Seed, err)
+						mu.Unlock()
+						return
+					}
+					var sigs []string
+					for _, v := range r.Violations {
+						sigs = append(sigs, v.Sig())
+					}
+					mu.Lock()
+					results[key{i, pi}] = fmt.Sprintf("%s|%s|%d|%v|%v", r.Digest, r.TraceHash, r.Height, sigs, r.Stats.Faults)
+					mu.Unlock()
+				}(i, pi, procs)
+			}
+		}
+		wg.Wait()
+		for i := 0; i < n; i++ {
+			a := results[key{i, 0}]
+			for pi := 1; pi < 3; pi++ {
+				if results[key{i, pi}] != a {
+					bad++
+					fmt.Printf("NONDETERMINISM run %d (seed %d, profile %s): \n  %s\n  %s\n", i, runSeed(base, i), specs[i%len(specs)].prof, a, results[key{i, pi}])
+				}
+			}
+		}
+		fmt.Printf("selftest-determinism: %d seeds x 3 processes (GOMAXPROCS 1/4/16), %d mismatches\n", n, bad)
+		if bad > 0 {
+			os.Exit(2)
+		}
 	}
 }
